@@ -6,6 +6,9 @@ import os
 VERIF = os.path.dirname(os.path.dirname(os.path.abspath(__file__)))
 
 CHECKS = {
+    "C15": ("record-only taps on the variate sources (scripted jump counts; recorded jump times, sampled states / jump sizes, normals) around the real simulators in their three modes; the path is recomputed by the harness from the recorded variates; direct calls of the two build_finer_grid closures",
+            "Held-on-observed: times 0 = t_0 < ... = T, running jump sums and running diffusion sums for 2..13 product dates, step cap incl. after the last jump and on paths without jump, original points kept, inserted points repeat the previous value, fine/coarse aligned; direct, 1-d chain, copula chain, 1-d coupling, copula coupling.",
+            "Finite-variation copulas; small grids.", "3/C15"),
     "C05": ("sequential reference model fed by the event log of a scripted coupling process (unique-id samples) run through the real multilevel engine; record-only wrappers on Statistic.add (fresh row below the allocated size)",
             "Held-on-observed: Nl, stored rows, price, ml, vl, level means/variances, cl, cost, kurtosis recomputed from exactly the logged samples over adaptive histories (late levels, multi-pass) and the fixed-level variant.",
             "Single process; scalar payoff without control variates in this check; budget-limited runs are inconclusive.", "3/C05"),
